@@ -140,7 +140,7 @@ def main():
     # several ranks: the parts of one component are computed by different ranks; the table returned at the root is the sum over all of
     # them (clear = true and false), and with clear = false every rank holds all terms afterwards (on-demand evaluation)
     NR = 3
-    sub = [s for s in scen if [x for x in ms if x["id"] == s["id"]][0]["M"] == 2][:5] + [s for s in scen if [x for x in ms if x["id"] == s["id"]][0]["M"] == 3][:1]
+    sub = [s for s in scen if [x for x in ms if x["id"] == s["id"]][0]["M"] == 2][:(3 if not thorough else 5)] + [s for s in scen if [x for x in ms if x["id"] == s["id"]][0]["M"] == 3][:1]
     per, done, rc, err = pv.run_driver_ranks(exe, sub, NR, timeout=1500)
     c.extra["rank_tier"] = {"ranks": NR, "scenarios": len(sub)}
     if min(done) < len(sub):
